@@ -411,6 +411,10 @@ func CheckMain(root, id, tier string, seed uint64) int {
 					confirmed = fd
 					break
 				}
+				if hung && strings.Contains(died, "WATCHDOG-CLASS: simulator-limit") {
+					harnessTrouble = "the case stalls the simulator itself (known limit, see DESIGN.md 7.7): " + strings.TrimSpace(died[strings.Index(died, "WATCHDOG-CLASS:"):])
+					break
+				}
 				if hung {
 					fd.Viol = []Violation{{Prop: id, Rule: "hang", Detail: "the simulated run does not terminate: a goroutine of the server blocks forever outside the simulator's control or spins without any transport operation (30 s watchdog, reproduced alone in a fresh process)", Sig: "hang"}}
 					confirmed = fd
@@ -421,6 +425,9 @@ func CheckMain(root, id, tier string, seed uint64) int {
 					confirmed = fd
 					break
 				}
+			}
+			if confirmed == nil && strings.HasPrefix(harnessTrouble, "the case stalls the simulator itself") {
+				continue
 			}
 			if confirmed == nil && kind == "death" && !wo.cur.Fixed && wo.shards > 0 {
 				// state that outlives a Server instance (free lists, pools, package
